@@ -455,3 +455,67 @@ def run_predsig(ctx, rep, rule="PREDSIG"):
     rep.control(rule, "ps_Bad pair", fired, "a 64-bit sum on one side only must be reported")
     rep.control(rule, "ps_Good pair (negative)", good, "restructured but equal arithmetic must agree")
     return n
+
+
+def _fpt(t):
+    if not isinstance(t, str):
+        return None
+    t = t.replace("const ", "").replace("&", "").strip()
+    return t if t in ("float", "double", "long double") else None
+
+
+def run_sibling_fp(ctx, rep, dirs=None, rule="SIBLING-FP"):
+    """SIBLING-FP: an encoder class and its decoder sibling that both compute in floating point use the same
+    floating-point types.  Where no value is transmitted (the adaptive bit coder derives each probability from
+    the bits seen so far on both sides) the two computations must be bit-identical; `float` on one side and
+    `double` on the other rounds differently after a few updates."""
+    from .core import Obligation, DISCHARGED, VIOLATION
+    from .dispatch import enc_to_dec
+    F = ctx.F
+    by, loc = {}, {}
+    for f in F.fns.values():
+        is_ctl = f.name.startswith("verif_control::fp_")
+        if not f.cls or not ("/draco/" in f.file or is_ctl):
+            continue
+        if dirs and not is_ctl and not any(d in f.file for d in dirs):
+            continue
+        cls = strip_targs(f.cls)
+        s = by.setdefault(cls, set())
+        loc.setdefault(cls, f.loc)
+        c = F.classes.get(f.cls) or F.classes.get(cls) or {}
+        for fld in c.get("fields", []) if isinstance(c.get("fields"), list) else []:
+            t = _fpt(fld.get("t") if isinstance(fld, dict) else None)
+            if t:
+                s.add(t)
+        for b, rk, tree, ev in f.roots():
+            if rk == "decl":
+                t = _fpt((ev.get("var") or {}).get("t"))
+                if t:
+                    s.add(t)
+            if tree is None:
+                continue
+            for n in walk(tree):
+                if n.get("k") in ("var", "field", "icast", "cast"):
+                    for key in ("t", "to"):
+                        t = _fpt(n.get(key))
+                        if t:
+                            s.add(t)
+    n = 0
+    fired = False
+    for cls in sorted(by):
+        if "Encod" not in cls:
+            continue
+        d = enc_to_dec(cls)
+        if d == cls or d not in by or not by[cls] or not by[d]:
+            continue
+        is_ctl = cls.startswith("verif_control::")
+        ok = by[cls] == by[d]
+        n += 0 if is_ctl else 1
+        fired |= is_ctl and not ok
+        rep.add(Obligation(rule, cls.replace("draco::", ""), "<-> " + d.replace("draco::", ""), loc[cls],
+                           DISCHARGED if ok else VIOLATION, control=is_ctl,
+                           detail="both sides compute in %s" % sorted(by[cls]) if ok else
+                           "the encoder computes in %s, the decoder in %s: state that both sides must derive "
+                           "identically is rounded differently" % (sorted(by[cls]), sorted(by[d]))))
+    rep.control(rule, "fp_ pair", fired, "float on one side and double on the other must be reported")
+    return n
